@@ -36,6 +36,18 @@ Proof.
   change (bpow radix2 0) with 1 in L. lra.
 Qed.
 
+Lemma u64_small : u64 <= / 1024.
+Proof.
+  unfold u64. assert (L : bpow radix2 (-53 + 1) <= bpow radix2 (-9)) by (apply bpow_le; lia).
+  change (bpow radix2 (-9)) with (/ 512) in L. lra.
+Qed.
+
+(* a magnitude of at least 1 is far from the underflow range *)
+Lemma no_underflow_ge1 x : 1 <= Rabs x -> no_underflow x.
+Proof.
+  intros H. right. apply Rle_trans with (bpow radix2 0); [apply bpow_le; lia|exact H].
+Qed.
+
 Lemma rnd64_fmt x : fmt (rnd64 x).
 Proof. unfold rnd64. apply generic_format_round; [apply FLT_exp_valid; exact P53f|apply valid_rnd_N]. Qed.
 
